@@ -132,4 +132,37 @@ def programs(tier):
             println(Call("dn", ToDyn("Named", Var("a")))),
         ], Unit))
         out.append({"prog": p, "family": "c03", "ident": f"c03:generic-methods:{iname}"})
+        # ---- a captured variable used in exactly one syntactic position inside the closure (capture analysis must see every position)
+    P = TAdt("Pt")
+    positions = {
+        "dyn-call-receiver": (TDyn("Named"), ToDyn("Named", Int(5)), TCall("Named", "name", Var("c"))),
+        "trait-call-receiver": (P, Struct(P, [("x", Int(1)), ("y", Int(2))]), TCall("Named", "name", Var("c"))),
+        "field-base": (P, Struct(P, [("x", Int(1)), ("y", Int(2))]), show_int(Field(Var("c"), "y"))),
+        "match-scrutinee": (TAdt("Opt", INT32), Ctor(TAdt("Opt", INT32), "Some_", Int(4)), show_int(Match(Var("c"), [(PCtor("None_"), Int(0)), (PCtor("Some_", PVar("v")), Var("v"))]))),
+        "callee": (TFn([INT32], INT32), FnRef("inc"), show_int(CallV(Var("c"), Int(1)))),
+        "array-index": (INT32, Int(1), show_int(Call("array_get", Array(Int(7), Int(8), Int(9)), Var("c")))),
+        "struct-literal-field": (INT32, Int(6), show_int(Field(Struct(P, [("x", Var("c")), ("y", Int(0))]), "x"))),
+        "to-dyn-operand": (INT32, Int(5), Call("dn", ToDyn("Named", Var("c")))),
+        "if-condition": (BOOL, Bool(True), If(Var("c"), Str("t"), Str("f"))),
+        "while-condition": (TRef(BOOL), Call("ref", Bool(True)), Block([Stmt(While(Call("ref_get", Var("c")), Block([Do(Call("ref_set", Var("c"), Bool(False)))], Unit)))], Str("w"))),
+        "tuple-projection": (TTuple(INT32, STRING), Tuple(Int(1), Str("p")), Proj(Var("c"), 1)),
+        "unary-operand": (INT32, Int(3), show_int(Un("-", Var("c")))),
+        "binary-right": (STRING, Str("r"), Bin("+", Str("l"), Var("c"))),
+        "nested-closure": (STRING, Str("n"), Block([Let("g", Lam([], Var("c")))], CallV(Var("g")))),
+        "constructor-argument": (INT32, Int(2), show_int(Match(Ctor(TAdt("Opt", INT32), "Some_", Var("c")), [(PCtor("None_"), Int(0)), (PCtor("Some_", PVar("v")), Var("v"))]))),
+    }
+    for pname, (cty, cval, use) in positions.items():
+        p = Program("c03_cap_" + pname.replace("-", "_"))
+        decls(p)
+        p.trait("Named", [("name", [], STRING)])
+        p.impl("Named", INT32, [("name", [("self", INT32)], STRING, Str("n-int"))])
+        p.impl("Named", P, [("name", [("self", P)], STRING, Str("n-pt"))])
+        p.fn("inc", [("x", INT32)], INT32, Bin("+", Var("x"), Int(1)))
+        p.fn("dn", [("d", TDyn("Named"))], STRING, TCall("Named", "name", Var("d")))
+        p.fn("main", [], UNIT, Block([
+            Let("c", cval, ty=cty),
+            Let("f", Lam([], use)),
+            println(CallV(Var("f"))),
+        ], Unit))
+        out.append({"prog": p, "family": "c03", "ident": f"c03:captured-only-as:{pname}"})
     return out
